@@ -2,13 +2,18 @@
 from vlib import core, text_oracles
 from vlib.props import C08 as _c08
 
-MODS = ['S4V.Props.SyslSpec', 'S4V.Props.FilterSpec', 'S4V.Props.SortSpec']
+MODS = ['S4V.Props.SyslSpec', 'S4V.Props.FilterSpec', 'S4V.Props.SortSpec', 'S4V.Props.SearchSkelSpec']
 LEVEL_NOTE = ("Proved: the decision functions translated from the source (dt_pass_filters, dt_after_or_before, ts_pass_filters, em_pass_filters, "
               "em_after_or_before, the fixedstruct prefilter) are inclusive at both bounds with a missing bound unbounded (FilterSpec); for text logs whose "
               "messages are chronological and at least 2 bytes long, binary search (plain files) and linear search (streamed files) return the FIRST message with "
               "dt >= A from any message start (bsearch_spec_at, lsearch_spec_at; a 1-byte-message counterexample is proved), and the streaming loop with window "
               "(A,B) emits exactly filter(A<=dt<=B) of the unwindowed output in the same order, [] when empty (streamAll_window). Records/events: "
-              "C08_mem_iff/C10_mem_iff. Tied to the code by in-process SyslineReader runs (binary and gz/linear) and by the binary on windows placed on and "
+              "C08_mem_iff/C10_mem_iff. The search functions themselves are re-read from syslinereader.rs on every run (Gen.Search: the arms, cursor updates, midpoint, exit tests "
+              "and window table of find_sysline_at_datetime_filter_binary_search / _linear_search / find_sysline_between_datetime_filters and both line walks of "
+              "find_sysline_year, as a small skeleton language); the interpreters of the generated skeletons are proved EQUAL to the hand models (SearchSkelSpec: "
+              "C03_bsearch_skeleton_is_model, C03_lsearch_skeleton_is_model, C03_between_skeleton_is_model, C02_findSysline_skeleton_is_model), so every theorem above holds of "
+              "the generated form (C03_bsearch_generated_spec, C03_window_generated) and a one-token edit of a comparison, a cursor update or the order of two tests breaks an rfl "
+              "fact; eleven such edits are proved wrong on concrete files (counter-models). Tied to the code by in-process SyslineReader runs (binary and gz/linear) and by the binary on windows placed on and "
               "next to message instants. Journal windows: C09.")
 ASSUME = ["text logs are chronological (the binary search is only meaningful then; the property's 'keeps the order' clause is for such files)",
           "regex/chrono attribute the instants (C04)"]
@@ -25,7 +30,7 @@ def oracle(ctx):
 
 
 def check(ctx):
-    return core.standard_check(ctx, ['Filter', 'Keys', 'Blocks', 'Consts'], MODS, [('sysl', 2500, 40000), ('proc', 300, 5000)], oracle, LEVEL_NOTE, ASSUME,
+    return core.standard_check(ctx, ['Filter', 'Keys', 'Blocks', 'Consts', 'Search'], MODS, [('sysl', 2500, 40000), ('srch', 1500, 12000), ('proc', 300, 5000)], oracle, LEVEL_NOTE, ASSUME,
                                extra_corr_fn=lambda c: getattr(c, '_extra_corr', []))
 
 
